@@ -282,8 +282,8 @@ impl Property for P {
     }
     fn workloads(&self, tier: Tier) -> Vec<Workload> {
         vec![
-            Workload::new("chains", tier.pick(20_000, 500_000), false, "random clean chains, URI compared at every hop"),
-            Workload::new("wire", tier.pick(5_000, 100_000), false, "request line and Host of every intermediate hop"),
+            Workload::new("chains", tier.pick(20_000, 8_000_000), false, "random clean chains, URI compared at every hop"),
+            Workload::new("wire", tier.pick(5_000, 2_000_000), false, "request line and Host of every intermediate hop"),
             Workload::new("hostile", (HOSTILE.len() * 3) as u64, true, "hostile Locations x 3 bases, weak oracle"),
             Workload::new("missing", 36, true, "missing / non-textual Location"),
         ]
